@@ -300,7 +300,7 @@ def run_counts(ctx, env, exprs, checks):
         # any seed: the real generator (predicates only)
         for _ in range(ctx.budget(2, 6)):
             seed = rng.randrange(2 ** 31)
-            impl = env.run(ws, D, mean, np.random.RandomState(seed))
+            impl = env.run(ws, D, mean, LimitedRandom(seed))
             case = {'part': 'A', 'ws': ws, 'D': D, 'mean': mean, 'seed': seed}
             ctx.case(case)
             ctx.count('A:real-rng-runs')
@@ -831,6 +831,21 @@ def compare_mc(ctx, case, impl_all, v):
 # =========================================================================== part C: history probes
 # "the result is a function of the current inputs only": the REAL objects are re-used, interleaved, mutated
 # and compared bit for bit with freshly built twins and with the independent brute-force oracles.
+class LimitedRandom(np.random.RandomState):
+    """a real RandomState that gives up when a (mutated) correction loop runs away"""
+
+    def __init__(self, seed, limit=400):
+        super().__init__(seed)
+        self.n_choice = 0
+        self.limit = limit
+
+    def choice(self, *a, **kw):
+        self.n_choice += 1
+        if self.n_choice > self.limit:
+            raise RuntimeError('correction loop did not terminate')
+        return super().choice(*a, **kw)
+
+
 class CountingRandom(np.random.RandomState):
     """a real RandomState that gives up when a (mutated) redraw loop does not end"""
 
@@ -1035,6 +1050,12 @@ def probe_mc(ctx, env, rng, case_a, case_b, alt_shgs):
     f2_live = gA.mu2flux(4.0, per_source=True)
     t2 = float(gA.mu2flux(4.0))
     r2, live2 = observe(env, gA, seeds[2], [m3])               # other arguments
+    observe(env, gA, seeds[1], [m1, m2])                       # same sizes, other draws (re-used buffers would be overwritten)
+    for d, k0 in zip(live1, keep):
+        if d is not None and canon_events(d) != k0:
+            ctx.violation(site + '.generate_signal_events', 'history:returned-events-overwritten',
+                          'events returned by an earlier call changed during a later call', case=dict(case_a, probe='owned'),
+                          predicate='returned values are owned by the caller')
     r3, _ = observe(env, gA, seeds[0], [m1, m2])               # repeat of the first call pair
     rb2, _ = observe(env, gB, seeds[1], [m3])
     data_intact('calls')
@@ -1151,26 +1172,27 @@ def probe_counts(ctx, env, rng):
         ws, D, kind = gen_weights(rng)
         g, log, sw = env.make(ws, D)
         g2, log2, sw2 = env.make(list(reversed(ws)), D)       # a second instance, built before first use
-        w0 = sw._w.copy()
+        w0, w20 = sw._w.copy(), sw2._w.copy()
         calls = [(rng.randint(0, 50), rng.randrange(2 ** 31)) for _ in range(5)]
         calls.append(calls[0])
         ctx.case({'part': 'C', 'ws': ws, 'D': D, 'calls': calls})
         ctx.count('C:counts-probe-sets')
         for mean, seed in calls:
-            got = env.call(g, log, mean, np.random.RandomState(seed))
-            other = env.call(g2, log2, mean, np.random.RandomState(seed))
+            got = env.call(g, log, mean, LimitedRandom(seed))
+            other = env.call(g2, log2, mean, LimitedRandom(seed))
             gf, logf, _ = env.make(ws, D)
-            want = env.call(gf, logf, mean, np.random.RandomState(seed))
+            want = env.call(gf, logf, mean, LimitedRandom(seed))
             gf2, logf2, _ = env.make(list(reversed(ws)), D)
-            want2 = env.call(gf2, logf2, mean, np.random.RandomState(seed))
+            want2 = env.call(gf2, logf2, mean, LimitedRandom(seed))
             case = {'part': 'A', 'ws': ws, 'D': D, 'mean': mean, 'seed': seed, 'probe': 'reuse', 'calls': calls}
             if got != want or other != want2:
                 ctx.violation(site, 'history:reuse:differs-from-fresh-generator', f'{got} vs {want}; {other} vs {want2}',
                               case=case, predicate='result depends on the current inputs only')
-            if not np.array_equal(sw._w, w0):
+            if not np.array_equal(sw._w, w0) or not np.array_equal(sw2._w, w20):
                 ctx.violation(site, 'history:dataset-weights-modified', 'the weight array of the service was changed in place',
                               case=case, predicate='arguments / service data are inputs')
                 sw._w[:] = w0
+                sw2._w[:] = w20
             check_counts_predicates(ctx, case, got)
 
 
